@@ -197,9 +197,21 @@ class Eq(Family):
                     b.cpsize = sz
             cp = copy.deepcopy(a)
             meta_ok = (cp.id == a.id and cp.name == a.name and cp.opt == a.opt and cp.pdimension == a.pdimension and cp.rational == a.rational)
-            return {"meta_ok": meta_ok, "eq_ab": a == b, "eq_ba": b == a, "ne_ab": a != b, "ne_ba": b != a, "eq_aa": a == a, "ne_aa": a != a,
-                    "eq_copy": a == cp, "eq_copy_rev": cp == a, "ne_copy": a != cp,
-                    "def_a": defn(a), "def_b": defn(b), "def_copy": defn(cp)}
+            res = {"meta_ok": meta_ok, "eq_ab": a == b, "eq_ba": b == a, "ne_ab": a != b, "ne_ba": b != a, "eq_aa": a == a, "ne_aa": a != a,
+                   "eq_copy": a == cp, "eq_copy_rev": cp == a, "ne_copy": a != cp,
+                   "def_a": defn(a), "def_b": defn(b), "def_copy": defn(cp)}
+            # a second copy is edited IN PLACE through the lists its getters hand out (last knot of one direction + 1/8, first
+            # coordinate of the first control point + 1): the source must keep its definition and the two must now differ
+            cp2 = copy.deepcopy(a)
+            dsel = c.get("dir", 0) % a.pdimension
+            kv = cp2.knotvector if a.pdimension == 1 else cp2.knotvector[dsel]
+            if c["comp"] in ("knot", "none", "degree"):
+                kv[-1] = kv[-1] + 0.125
+            else:
+                pts = cp2.ctrlptsw if a.rational else cp2.ctrlpts
+                pts[0][0] = pts[0][0] + 1.0
+            res.update({"def_a2": defn(a), "def_cp2": defn(cp2), "eq_cp2": a == cp2, "eq_cp2_rev": cp2 == a})
+            return res
         return call(quiet, run)
 
     def coq(self, c, out):
@@ -221,6 +233,10 @@ class Eq(Family):
                       "Bool.eqb (shape_ne Qops tl A B) %s" % G.b(o["ne_ab"]),
                       "Bool.eqb (shape_ne Qops tl B A) %s" % G.b(o["ne_ba"]),
                       "Bool.eqb (shape_eq Qops tl A Cp) %s" % G.b(o["eq_copy"])]
+            if "def_cp2" in o:
+                lets += "let A2 := %s in let Cp2 := %s in " % ("A" if o["def_a2"] == o["def_a"] else shape_term(o["def_a2"]), shape_term(o["def_cp2"]))
+                parts += ["Bool.eqb (shape_eq Qops tl A2 Cp2) %s" % G.b(o["eq_cp2"]),
+                          "Bool.eqb (shape_eq Qops tl Cp2 A2) %s" % G.b(o["eq_cp2_rev"])]
         e = parts[0]
         for q_ in parts[1:]:
             e = "andb (%s) (%s)" % (e, q_)
@@ -263,6 +279,15 @@ class Eq(Family):
             return "deepcopy: id / name / opt / kind of the copy differ from the source (metadata %s)" % (c.get("meta"),)
         if o["eq_ab"] != o["eq_ba"]:
             return "symmetric: a == b is %r but b == a is %r" % (o["eq_ab"], o["eq_ba"])
+        if "def_cp2" in o:
+            if o["def_a2"] != o["def_a"]:
+                diff = [k for k in o["def_a"] if o["def_a"][k] != o["def_a2"][k]]
+                return "deepcopy-independent: editing a deep copy in place (through the list its getter returns) changed the source's %s" % (diff,)
+            md2 = self._maxdiff(o["def_a2"], o["def_cp2"])
+            exp2 = md2 is not None and md2 < F(1, 10 ** (18 if c["precision"] is None else c["precision"]))
+            if o["eq_cp2"] != exp2 or o["eq_cp2_rev"] != exp2:
+                return "deepcopy-edit: after editing the copy (largest component difference %s) a == copy is %r, copy == a is %r" % (
+                    md2, o["eq_cp2"], o["eq_cp2_rev"])
         if o["ne_ab"] != (not o["eq_ab"]) or o["ne_ba"] != (not o["eq_ba"]):
             return "ne-negation: a == b is %r, a != b is %r" % (o["eq_ab"], o["ne_ab"])
         prec = 18 if c["precision"] is None else c["precision"]
